@@ -477,6 +477,11 @@ func (w *WAL) AppendExactBytes(rawBytes []byte, seqNum uint64) (uint64, error) {
 			payloadSize, len(rawBytes))
 	}
 
+	// Check for sequence number overflow
+	if seqNum >= MaxSequenceNumber {
+		return 0, ErrSequenceOverflow
+	}
+
 	// Update nextSequence if the provided sequence is higher
 	if seqNum >= w.nextSequence {
 		w.nextSequence = seqNum + 1
